@@ -182,6 +182,9 @@ func kfPercent(args []KeyBuilderStage) (KeyBuilderStage, error) {
 	if !hasDecimals {
 		return stageArgError(ErrConst, 1)
 	}
+	if decimals > maxPrecision {
+		return stageArgError(ErrValue, 1)
+	}
 
 	var stageMin, stageMax typedStage[float64]
 	minOk, maxOk := true, true
@@ -260,6 +263,9 @@ func kfBytesize(args []KeyBuilderStage) (KeyBuilderStage, error) {
 	if !pOk {
 		return stageArgError(ErrNum, 1)
 	}
+	if precision > maxPrecision {
+		return stageArgError(ErrValue, 1)
+	}
 
 	return KeyBuilderStage(func(context KeyBuilderContext) string {
 		val, err := strconv.ParseUint(args[0](context), 10, 64)
@@ -280,6 +286,9 @@ func kfBytesizeSi(args []KeyBuilderStage) (KeyBuilderStage, error) {
 	if !pOk {
 		return stageArgError(ErrNum, 1)
 	}
+	if precision > maxPrecision {
+		return stageArgError(ErrValue, 1)
+	}
 
 	return KeyBuilderStage(func(context KeyBuilderContext) string {
 		val, err := strconv.ParseUint(args[0](context), 10, 64)
@@ -299,6 +308,9 @@ func kfDownscale(args []KeyBuilderStage) (KeyBuilderStage, error) {
 	precision, pOk := EvalArgInt(args, 1, 0)
 	if !pOk {
 		return stageArgError(ErrNum, 1)
+	}
+	if precision > maxPrecision {
+		return stageArgError(ErrValue, 1)
 	}
 
 	return func(context KeyBuilderContext) string {
